@@ -1234,13 +1234,26 @@ impl<'a> Exchange<'a> {
         // counter value replayed. Writes happen once per
         // `GROUP_DATA_CTR_EPOCH` messages, not per message.
         if let Some(boundary) = boundary {
-            kv.access(|store, buf| {
+            let stored = kv.access(|store, buf| {
                 store.store(
                     crate::persist::GROUP_DATA_COUNTER_KEY,
                     &boundary.to_le_bytes(),
                     buf,
                 )
-            })?;
+            });
+
+            if let Err(err) = stored {
+                // Nothing durable covers the reserved value (nor the rest of
+                // the epoch): give the reservation back, so that the next one
+                // hands out the same value and demands the write again.
+                matter.with_state(|state| {
+                    state
+                        .sessions
+                        .unreserve_global_group_data_ctr(group_data_ctr)
+                });
+
+                return Err(err);
+            }
 
             debug!(
                 "Group data message counter boundary persisted: {}",
